@@ -22,13 +22,38 @@ class C03(IdProp):
             cases.append({"g": {"nodes": [0, 1, 2], "dir": [[2, 0]], "bid": [[0, 1]]}, "X": [], "Y": [1], "Z": [0]})
         nmax = 6
         while len(cases) < n:
+            if rng.random() < 0.25:      # several conditions joined by bidirected edges, each with its own parent
+                cases.append(self.collider_chain_case(rng))
+                continue
             g = GG.rand_admg(rng, 3, nmax)
             ns = list(g["nodes"]); rng.shuffle(ns)
             kx = rng.randint(0, min(2, len(ns) - 2))
             ky = rng.randint(1, min(2, len(ns) - kx - 1))
-            kz = rng.randint(1, min(2, len(ns) - kx - ky))
+            kz = rng.randint(1, min(3, len(ns) - kx - ky))
             cases.append({"g": g, "X": ns[:kx], "Y": ns[kx:kx + ky], "Z": ns[kx + ky:kx + ky + kz]})
         return cases
+
+    def collider_chain_case(self, rng):
+        """Z1 <- W -> Z2 <-> Z3 <- Y style graphs: conditioning on a run of colliders linked by bidirected edges."""
+        k = rng.randint(2, 3)
+        zs = list(range(k))                      # conditions 0..k-1 chained by bidirected edges
+        nxt = k
+        di, bi = [], [[zs[i], zs[i + 1]] for i in range(k - 1)]
+        w, y, x = nxt, nxt + 1, nxt + 2
+        di += [[w, zs[0]], [y, zs[-1]], [x, y]]
+        extra = nxt + 3
+        conds = list(zs)
+        if rng.random() < 0.6 and extra <= 6:
+            di.append([w, extra]); conds.append(extra)
+        nodes = sorted({v for e in di + bi for v in e})
+        for _ in range(rng.randint(0, 2)):
+            a, b = sorted(rng.sample(nodes, 2))
+            if [a, b] not in di and [b, a] not in di and rng.random() < 0.5:
+                pass
+        perm = list(nodes); rng.shuffle(perm)
+        ren = dict(zip(nodes, perm))
+        g = {"nodes": sorted(perm), "dir": [[ren[a], ren[b]] for a, b in di], "bid": [[ren[a], ren[b]] for a, b in bi]}
+        return {"g": g, "X": [ren[x]] if rng.random() < 0.7 else [], "Y": [ren[y]], "Z": [ren[c] for c in conds]}
 
     def run(self, case):
         from y0.algorithm.identify import identify_outcomes
